@@ -17,6 +17,7 @@ import (
 	"bufio"
 	"context"
 	"encoding/hex"
+	"io"
 	"net"
 	"sync"
 
@@ -162,7 +163,7 @@ func (s *tftpService) Handle(ctx context.Context, conn net.Conn) error {
 		}
 		buffer := make([]byte, 512)
 		n, err := b.Read(buffer)
-		if err != nil {
+		if err != nil && err != io.EOF { // an empty last block ends the transfer
 			log.Error(err.Error())
 			return err
 		}
